@@ -200,6 +200,39 @@ dom%(u)s(n: SI): SI == {
     return d, [], "dom%s(%d)" % (u, n)
 
 
+def b_docs(u, rng, n):
+    """A domain whose exports carry documentation comments: before the declaration (+++),
+    after it (++), or both (the two texts are merged into one)."""
+    words = ["counter", "adds one", "reads", "the value", "starting at zero", "returns it", "x" * rng.range(1, 200)]
+
+    def doc(name):
+        how = rng.below(4)
+        pre = "\t+++ %s %s\n" % (name, rng.choice(words)) if how in (0, 2) else ""
+        if how == 2 and rng.chance(1, 2):
+            pre += "\t+++ %s\n" % rng.choice(words)
+        post = "\t\t++ %s.\n" % rng.choice(words) if how in (1, 2) else ""
+        return pre, post
+    d0, d1, d2 = doc("new()"), doc("bump!(c)"), doc("value(c)")
+    d = ("\n+++ Counter%(u)s is a small domain of counters.\nCounter%(u)s: with {\n"
+         + d0[0] + "\tnew:   () -> %%;\n" + d0[1]
+         + d1[0] + "\tbump!: %% -> %%;\n" + d1[1]
+         + d2[0] + "\tvalue: %% -> SI;\n" + d2[1] + """} == add {
+	Rep ==> Record(n: SI);
+	import from Rep;
+	new(): %% == per [0];
+	bump!(c: %%): %% == { rep(c).n := rep(c).n + 1; c }
+	value(c: %%): SI == rep(c).n;
+}
+doc%(u)s(n: SI): SI == {
+	import from Counter%(u)s;
+	c := new();
+	for i: SI in 1..n repeat bump! c;
+	value c
+}
+""") % dict(u=u)
+    return d, [], "doc%s(%d)" % (u, n)
+
+
 def b_exn(u, rng, n):
     k = rng.range(3, 11)
     d = '''
@@ -427,10 +460,10 @@ dyn%(u)s(n: SI): SI == {
     return d, [], "dyn%s(%d)" % (u, max(2, min(n, 400)))
 
 
-def b_chain(u, rng, n):
+def b_chain(u, rng, n, length=None):
     """A long chain of cells linked through a field that is NOT the last word of the cell
     (the marker cannot follow it by tail call): deep marker recursion."""
-    length = rng.choice([3000, 12000, 25000, 40000, 60000])
+    length = length or rng.choice([3000, 12000, 25000, 40000, 60000])
     d = '''
 Cell%(u)s: with {
 	nil:   %%;
@@ -542,7 +575,7 @@ bdr%(u)s(rounds: SI): SI == {
 BLOCKS = [("list", b_list, 4), ("record", b_record, 4), ("node", b_node, 2), ("closure", b_closure, 2),
           ("generator", b_generator, 2), ("bigint", b_bigint, 3), ("string", b_string, 2), ("table", b_table, 2),
           ("array", b_array, 3), ("domain", b_domain, 1),
-          ("exn", b_exn, 2), ("union", b_union, 2), ("float", b_float, 1), ("tokens", b_tokens, 1),
+          ("docs", b_docs, 2), ("exn", b_exn, 2), ("union", b_union, 2), ("float", b_float, 1), ("tokens", b_tokens, 1),
           ("deeprec", b_deeprec, 2), ("ptrarray", b_ptrarray, 2), ("dyndom", b_dyndom, 2),
           ("strops", b_strops, 2), ("arrgrow", b_arrgrow, 2), ("bigarray", b_bigarray, 3), ("rawrec", b_rawrec, 0),	# rawrec: compiled route only (the interpreter has no RRFmt)
           ("frag", b_frag, 0), ("chain", b_chain, 0), ("bigdrop", b_bigdrop, 0)]	# weight 0: only when forced (expensive)
